@@ -172,12 +172,15 @@ Step == /\ l <= Len(T.ev)
         /\ (MTx \/ MIn \/ MOg \/ MSub \/ MRcv \/ MCfq \/ MErr \/ MRej \/ MPreq \/ MPause \/ MReboot \/ MRestart)
 
 \* end of trace.  T.fin: quiet = every application sender has returned and the radio loop is
-\* parked at its next transmission; inq = len(in_queue) (cross-checked against the events)
+\* parked at its next transmission; inq = len(in_queue) (cross-checked against the events);
+\* wedged = the execution had to be ended (step budget exhausted / a thread died)
 Finish == /\ l = Len(T.ev) + 1
           /\ l' = l + 1
-          /\ LET drained == T.fin.quiet /\ T.fin.inq = 0 /\ tail >= P!DrainNeed(mh)
+          /\ LET drained == \/ T.fin.quiet /\ T.fin.inq = 0 /\ tail >= P!DrainNeed(mh)
+                            \/ T.fin.wedged      \* the harness gave up waiting for progress: what has not
+                                                 \* arrived by now never will
                  c == IF bad # "ok" THEN bad
-                      ELSE IF T.fin.quiet THEN P!FinalClause(mh, T.retries, drained)
+                      ELSE IF T.fin.quiet \/ T.fin.wedged THEN P!FinalClause(mh, T.retries, drained)
                       ELSE P!HistoryClause(mh, T.retries)
                  m == IF mach # "ok" THEN mach
                       ELSE IF T.fin.inq # nIn - nRcv THEN "InQueueCountMismatch" ELSE "ok"
